@@ -80,6 +80,60 @@ def oracle(utils, c):
     return fails
 
 
+def run_sc(rec, sc):
+    """a history of a scenario; sc["assemblage"] / sc["fractions"] (phase ordinals, volume fractions) put the mineral into a
+    multiphase aggregate"""
+    import pydrex
+    if sc.get("assemblage"):
+        return c01.run_history(rec, sc, tuple(pydrex.MineralPhase(int(p)) for p in sc["assemblage"]), tuple(float(x) for x in sc["fractions"]))
+    return c01.run_history(rec, sc)
+
+
+def history_fails(h):
+    """C09 read on a recorded history: after every update the grains whose INTEGRATED volume (LSODA's last vector, clipped and
+    normalised within the phase) is below chi/n keep exactly their start-of-update orientation and get the floor chi/n; the stored
+    volumes are the floored ones renormalised -- whatever the regime, the phase fraction of the mineral or the list order"""
+    sc, m = h["sc"], h["mineral"]
+    chi, n = float(h["params"]["gbs_threshold"]), sc["n"]
+    out = []
+    for k, u in enumerate(h["updates"]):
+        tr = u["trace"]
+        if tr.error is not None or not tr.step_ys or k + 1 >= len(m.orientations):
+            continue
+        ylast = tr.step_ys[-1]
+        f_int = np.clip(ylast[9 + 9 * n:], 0, None)
+        f_int = f_int / f_int.sum()
+        masked = f_int < chi / n
+        if masked.any() and not np.array_equal(np.asarray(m.orientations[k + 1])[masked], np.asarray(m.orientations[k])[masked]):
+            out.append(f"update {k} in regime {sc['regime']}: a grain below chi/n did not keep its start-of-update orientation")
+        floored = np.where(masked, chi / n, f_int)
+        if np.abs(np.asarray(m.fractions[k + 1]) - floored / floored.sum()).max() > 1e-12:
+            out.append(f"update {k} in regime {sc['regime']}: stored volumes are not the floored and renormalised integrated volumes")
+        if np.asarray(m.fractions[k + 1]).min() < chi / (n * (1 + chi)) * (1 - 1e-9):
+            out.append(f"update {k} in regime {sc['regime']}: a stored fraction {np.asarray(m.fractions[k + 1]).min():.6e} is below chi/(n (1 + chi)) = {chi / (n * (1 + chi)):.6e}")
+    return out
+
+
+def multiphase_scenarios(rng, tier):
+    """sliding inside a multiphase aggregate: both phases, both list orders, own fraction 0.1 .. 0.9 (and exactly 1 inside a
+    two-phase list), regimes with and without migration, textures with grains below AND between phi chi/n and chi/n"""
+    out = []
+    for r in range(1 if tier == "quick" else 6):
+        for j, regime in enumerate((4, 6, 0, 1)):
+            own = (j + r) % 2
+            pair = (0, int(rng.integers(0, 5))) if own == 0 else (1, 5)
+            sc = MT.scenario(rng, regime=regime, pair=pair, tkind=("nonuniform", "clustered")[(j + r) % 2], n=int(rng.integers(5, 14)),
+                             nupd=2, strain=float(rng.uniform(0.4, 0.8)))
+            sc["params"]["gbs_threshold"] = float(rng.uniform(0.3, 0.9))
+            sc["params"]["gbm_mobility"] = float(rng.uniform(50, 200))
+            phi = float((0.3, 0.7, 0.1, 0.5, 0.9, 1.0)[int(rng.integers(6))])
+            order = [own, 1 - own] if (j // 2 + r) % 2 == 0 else [1 - own, own]
+            sc["assemblage"] = order
+            sc["fractions"] = [phi if p == own else 1.0 - phi for p in order]
+            out.append(sc)
+    return out
+
+
 def encode(c):
     return {"n_grains": c["n"], "gbs_threshold": hx(c["chi"]), "fractions": [hx(x) for x in c["f"]],
             "orientations": [hx(x) for x in c["o"].reshape(-1)], "orientations_prev": [hx(x) for x in c["prev"].reshape(-1)]}
@@ -160,23 +214,18 @@ def run(chk):
                     sc["params"]["gbs_threshold"] = float(rng.uniform(0.3, 0.9))
                     h = c01.run_history(rec, sc)
                     c01.validate_traces(chk, h, tb)
-                    m, chi, n = h["mineral"], sc["params"]["gbs_threshold"], sc["n"]
-                    for k, u in enumerate(h["updates"]):
-                        tr = u["trace"]
-                        if tr.error is not None or not tr.step_ys or k + 1 >= len(m.orientations):
-                            continue
-                        ylast = tr.step_ys[-1]
-                        f_int = np.clip(ylast[9 + 9 * n:], 0, None)
-                        f_int = f_int / f_int.sum()
-                        masked = f_int < chi / n
-                        if masked.any() and not np.array_equal(np.asarray(m.orientations[k + 1])[masked],
-                                                               np.asarray(m.orientations[k])[masked]):
-                            tb.append((sc, f"update {k} in regime {regime}: a grain below chi/n did not keep its start-of-update orientation"))
-                        floored = np.where(masked, chi / n, f_int)
-                        if np.abs(np.asarray(m.fractions[k + 1]) - floored / floored.sum()).max() > 1e-12:
-                            tb.append((sc, f"update {k} in regime {regime}: stored volumes are not the floored and renormalised integrated volumes"))
+                    tb += [(sc, msg) for msg in history_fails(h)]
+            # sliding inside a multiphase aggregate (the threshold and the floor are chi/n whatever the phase fraction): own stream
+            mh = chk.cov.setdefault("multiphase_sliding_histories", {})
+            for sc in multiphase_scenarios(np.random.default_rng([chk.seed, 0xC09E]), chk.tier):
+                h = run_sc(rec, sc)
+                c01.validate_traces(chk, h, tb)
+                tb += [(sc, msg) for msg in history_fails(h)]
+                key = f"{('olivine', 'enstatite')[sc['pair'][0]]}/regime {sc['regime']}/phi {sc['fractions'][sc['assemblage'].index(sc['pair'][0])]:g}/listed {'first' if sc['assemblage'][0] == sc['pair'][0] else 'second'}"
+                mh[key] = mh.get(key, 0) + 1
         bad += [(None, m) for _, m in tb]
-        hist_fail = [(sc_, m) for sc_, m in tb if isinstance(sc_, dict) and ("did not keep" in m or "stored volumes" in m)]
+        hist_fail = [(sc_, m) for sc_, m in tb if isinstance(sc_, dict) and "pair" in sc_ and
+                     ("did not keep" in m or "stored volumes" in m or "a stored fraction" in m)]
         chk.cov["traces_validated_against_impl"] = chk.cov["evaluations"]
     chk.cov["disagreements"] = len(bad)
     if ok and not bad:
@@ -211,6 +260,15 @@ def replay(d):
     if d.get("kind") != "property-violation":
         print("replay file names a broken obligation; re-run the check itself")
         return 1
+    if "scenario" in d:
+        sc = d["scenario"]
+        sc["pair"] = tuple(sc["pair"])
+        with MT.Recorder() as rec:
+            h = run_sc(rec, sc)
+        fails = history_fails(h)
+        for f in fails:
+            print("still fails:", f)
+        return 1 if fails else 0
     fails = oracle(utils, decode(d["input"]))
     for f in fails:
         print("still fails:", f)
